@@ -411,6 +411,240 @@ def sec_oracles(ck, hm):
     ck.section("oracles", grids=len(grids), **stats)
 
 
+def starts_for(TR, n, thorough):
+    """time origins: zero, fractions of TR, whole scans, negative, non-dyadic"""
+    st = [0.0, TR / 2, 4 * TR, -3 * TR, 0.3, -1.7]
+    if thorough:
+        st += [TR / 3, 17.25, -0.1 * TR, 7 * TR + 0.01]
+    return st
+
+
+def drift_oracles(ck, dm):
+    ndr = 0
+    ns = [8, 17, 33, 64, 100] if not ck.thorough() else list(range(4, 130, 3))
+    for n in ns:
+        for TR in (1.0, 2.0, 2.5, 0.7):
+            base_c, base_p = {}, {}
+            for start in starts_for(TR, n, ck.thorough()) + ["far", "tmax0"]:
+                tag = "start0" if start == 0.0 else ("far-origin" if start == "far" else ("tmax-zero" if start == "tmax0" else "shifted"))
+                if start == "far":
+                    start = 1000.0
+                elif start == "tmax0":
+                    start = -(n - 1) * TR
+                ft = start + TR * np.arange(n)
+                # ------------------------------------------------ cosine
+                for period in ((n * TR / 3.1, n * TR / 1.3, 2.0 * TR, 128.0, 7.3 * TR) if tag in ("start0", "shifted") else (n * TR / 3.1,)):
+                    ndr += 1
+                    rep = {"n": n, "TR": TR, "start": start, "frametimes": "start + TR*arange(n)", "period_cut": period}
+                    x = 2 * n * TR / period
+                    try:
+                        C = dm._cosine_drift(period, ft)
+                    except IndexError as e:
+                        ck.count(("cos-raise", n, TR, period, start), bucket="drift:cosine-raises")
+                        if int(np.floor(x)) == 0:
+                            ck.fail("drift/cosine-order-zero-raises", "_cosine_drift(period_cut=%g, TR=%g n=%d) raises IndexError: %s" % (period, TR, n, e), rep)
+                        else:
+                            ck.fail("drift/cosine-raises", "_cosine_drift raised %s" % e, rep)
+                        continue
+                    ck.count(("cos", n, TR, period, start), nontrivial=C.shape[1] > 1, bucket="drift:cosine:%s" % tag)
+                    rep["shape"] = list(C.shape)
+                    order = C.shape[1]
+                    if C.shape[0] != n or abs(order - x) > 1 + 1e-9 or order < 1:
+                        ck.fail("drift/cosine-shape", "cosine drift has shape %s, expected (%d, floor(%g))" % (C.shape, n, x), rep)
+                        continue
+                    K = C[:, :-1]
+                    if not np.all(C[:, -1] == 1.0):
+                        ck.fail("drift/cosine-constant-last", "last cosine-drift column is not the constant 1", rep)
+                    if K.shape[1] and order <= n:
+                        G = K.T @ K
+                        if np.max(np.abs(G - np.eye(K.shape[1]))) > 1e-10:
+                            ck.fail("drift/cosine-orthonormal/%s" % tag, "cosine drift columns are not orthonormal for frametimes starting at %g (max |G - I| = %g)"
+                                    % (start, np.max(np.abs(G - np.eye(K.shape[1])))), rep)
+                        if np.max(np.abs(K.sum(0))) > 1e-10:
+                            ck.fail("drift/cosine-orthogonal-to-constant/%s" % tag, "a cosine drift column is not orthogonal to the constant for frametimes starting at %g "
+                                    "(max |sum| = %g)" % (start, np.max(np.abs(K.sum(0)))), rep)
+                        # DCT-II closed form in the scan INDEX, incl. the column ORDER (frequency k in column k-1)
+                        kk = np.arange(1, order)
+                        ref = np.sqrt(2.0 / n) * np.cos(np.pi / n * (np.arange(n)[:, None] + .5) * kk[None, :])
+                        if np.max(np.abs(ref - K)) > 1e-12:
+                            ck.fail("drift/cosine-column-order" if tag == "start0" else "drift/cosine-closed-form/%s" % tag,
+                                    "cosine drift column k-1 is not the DCT-II basis function of frequency k of the scan index (start %g)" % start, rep)
+                    # invariance under a shift of the time origin
+                    if tag == "start0":
+                        base_c[period] = C
+                    elif period in base_c:
+                        C0 = base_c[period]
+                        if C0.shape != C.shape:
+                            near_int = abs(x - round(x)) < 1e-9
+                            ck.fail("drift/cosine-order-boundary-rounding" if near_int else "drift/cosine-not-origin-invariant",
+                                    "_cosine_drift(period_cut=%g) has %d columns for frametimes TR*arange(%d) but %d for the same grid started at %g "
+                                    "(2*n*TR/period_cut = %r)" % (period, C0.shape[1], n, C.shape[1], start, x), rep)
+                        elif np.max(np.abs(C0 - C)) > 1e-12:
+                            ck.fail("drift/cosine-not-origin-invariant", "cosine drift changes by %g when the time origin is moved to %g" % (np.max(np.abs(C0 - C)), start), rep)
+                # ------------------------------------------------ polynomial
+                for order in (0, 1, 2, 3, 5):
+                    if order >= n:
+                        continue
+                    ndr += 1
+                    rep = {"n": n, "TR": TR, "start": start, "frametimes": "start + TR*arange(n)", "order": order}
+                    try:
+                        with warnings.catch_warnings():
+                            warnings.simplefilter("ignore")
+                            P = dm._poly_drift(order, ft)
+                    except Exception as e:  # noqa
+                        ck.count(("poly-raise", n, TR, order, start), bucket="drift:polynomial-raises")
+                        ck.fail("drift/poly-tmax-zero-raises" if tag == "tmax-zero" else "drift/poly-raises",
+                                "_poly_drift(%d, frametimes %g + %g*arange(%d)) raised %s: %s" % (order, start, TR, n, type(e).__name__, e), rep)
+                        continue
+                    ck.count(("poly", n, TR, order, start), nontrivial=order > 0, bucket="drift:polynomial:%s" % tag)
+                    if P.shape != (n, order + 1):
+                        ck.fail("drift/poly-shape", "polynomial drift has shape %s" % (P.shape,), rep)
+                        continue
+                    if not np.all(np.isfinite(P)):
+                        ck.fail("drift/poly-tmax-zero-raises" if tag == "tmax-zero" else "drift/poly-not-finite",
+                                "_poly_drift(%d, frametimes %g + %g*arange(%d)) contains nan/inf" % (order, start, TR, n), rep)
+                        continue
+                    G = P.T @ P
+                    nrm = np.sqrt(np.diag(G))
+                    Gn = G / np.outer(nrm, nrm)
+                    if np.max(np.abs(Gn - np.eye(order + 1))) > 1e-7:
+                        ck.fail("drift/poly-orthogonal/%s" % tag, "polynomial drift columns (order %d, frametimes starting at %g) are not mutually orthogonal "
+                                "(max normalised |<ci,cj>| = %g)" % (order, start, np.max(np.abs(Gn - np.eye(order + 1)))), rep)
+                        continue
+                    if not np.allclose(P[:, -1], 1.0):
+                        ck.fail("drift/poly-constant-last", "last polynomial-drift column is not the constant", rep)
+                    if tag == "far-origin":
+                        continue
+                    # column k-1 has exact degree k: its k-th finite difference is a non-zero constant
+                    for k in range(1, order + 1):
+                        c = P[:, k - 1] / np.max(np.abs(P[:, k - 1]))
+                        dk = np.diff(c, k)
+                        dk1 = np.diff(c, k + 1) if k + 1 < n else np.zeros(1)
+                        if not (np.max(np.abs(dk)) > 1e-9 and np.max(np.abs(dk1)) < 1e-6 * max(1.0, np.max(np.abs(dk)) * 1e3)):
+                            ck.fail("drift/poly-column-order", "polynomial drift column %d is not a polynomial of degree %d (start %g)" % (k - 1, k, start), rep)
+                            break
+                    # same basis (up to the scale/sign of each column) whatever the time origin
+                    if tag == "start0":
+                        base_p[order] = P
+                    elif order in base_p and tag == "shifted":
+                        P0 = base_p[order]
+                        cosang = np.abs(np.sum(P0 * P, 0)) / (np.linalg.norm(P0, axis=0) * np.linalg.norm(P, axis=0))
+                        if np.min(cosang) < 1 - 1e-6:
+                            ck.fail("drift/poly-not-origin-invariant", "polynomial drift column %d spans a different direction when the time origin is moved to %g "
+                                    "(|cos| = %g)" % (int(np.argmin(cosang)), start, np.min(cosang)), rep)
+    return ndr
+
+
+CSV_NAME_POOL = [
+    "rest    ", "    task", "  both  ", "x", " x", "x ", "x  ", "a b", "a  b", "cond a", "a\tb", "\tlead_tab", "trail_tab\t",
+    "a,b", "a, b", ",", "a;b", "a:b", "c|d", '"q"', 'say "hi"', "it's", "'", '"', "#a", "a#b", "(a)", "[b]", "{c}", "a/b", "a\\b",
+    "a=b", "a+b", "-a", "*", "%d", "a.b", "a_b", "a-b", "1", "2", "1.5", "-0", "1e5", "0x10", "nan", "inf", "+3", "007", "", " ", "  ",
+    "\t", "NA", "None", "True", "constant", "drift_1", "reg0", "A", "a", "Rest", "rest", "rest ", "a_derivative", "c_delay_0"]
+CSV_EXTREMES = [0.0, -0.0, 1.0, -1.0, 5e-324, -5e-324, 2.2250738585072014e-308, 1.7976931348623157e308, -1.7976931348623157e308,
+                1e-300, 1e300, 0.1, 1 / 3, 2 ** 53 + 2.0, 2 ** -1074, 123456789.12345679, 1e16, 1e-7, 9.999999999999999e22]
+
+
+def name_loss(want, back):
+    """structural description of how the names changed in the round trip"""
+    if len(want) != len(back):
+        return "column-count"
+    kinds = set()
+    for w, b in zip(want, back):
+        if w == b:
+            continue
+        if b == w.lstrip(" \t"):           # trailing blanks kept (csv skipinitialspace behaviour)
+            kinds.add("leading")
+        elif b == w.rstrip(" \t"):
+            kinds.add("trailing")
+        elif b == w.strip(" \t"):
+            kinds.add("leading"); kinds.add("trailing")
+        elif '"' in w or "'" in w:
+            kinds.add("quote")
+        else:
+            kinds.add("other")
+    if kinds == {"leading"}:
+        return "leading-blanks-lost"
+    if kinds <= {"leading", "trailing"}:
+        return "trailing-blanks-lost"       # trailing (or both sides) stripped
+    if kinds <= {"quote", "leading"}:
+        return "quote-characters"
+    return "other"
+
+
+def csv_oracles(ck, dm, ep, rng):
+    ncsv = 0
+    tmp = tempfile.mkdtemp(prefix="c07-csv-", dir=str(ck.scratch))
+    cases = []
+    # fixed cases first (smallest replays first)
+    cases.append((np.ones((26, 1)), ["n0_"], "one-column"))
+    cases.append((rng.standard_normal((6, 1)), ["a"], "one-column"))
+    for nm in ([" x"], ["x "], ["rest    "], [""], [" "], ["a b"], ["1"], ["a,b"], ['"q"'], ["\t"]):
+        cases.append((rng.standard_normal((4, 1)), nm, "one-column-odd-name"))
+    cases.append((rng.standard_normal((4, 2)), ["x", " x"], "near-duplicate-blanks"))
+    cases.append((rng.standard_normal((4, 3)), ["x ", "x", "  x  "], "near-duplicate-blanks"))
+    cases.append((rng.standard_normal((4, 2)), ["rest    ", "rest"], "near-duplicate-blanks"))
+    cases.append((rng.standard_normal((4, 3)), ["rest    ", "task    ", "fix     "], "fixed-width"))
+    cases.append((rng.standard_normal((4, 2)), ["", " "], "empty-looking"))
+    cases.append((rng.standard_normal((4, 3)), ["1", "2.5", "-0"], "numeric-looking"))
+    cases.append((np.array(CSV_EXTREMES).reshape(-1, 1) * np.ones((1, 2)), ["lo", "hi"], "extreme-values"))
+    cases.append((np.array(CSV_EXTREMES[::-1] + CSV_EXTREMES).reshape(-1, 2), [" lo", "hi "], "extreme-values"))
+    for i in range(ck.n(60, 400)):
+        n = int(rng.integers(1, 30)); p = int(rng.integers(1, 7))
+        X = rng.standard_normal((n, p)) * 10.0 ** rng.integers(-8, 8, (1, p))
+        kind = ("plain", "pool", "pool", "padded", "extreme")[i % 5]
+        if kind == "plain":
+            names = ["n%d_%s" % (j, "x" * int(rng.integers(0, 4))) for j in range(p)]
+        elif kind == "padded":     # ids cut from fixed-width logs + near-duplicates differing only by blanks
+            stem = ["rest", "task", "x"][int(rng.integers(0, 3))]
+            pads = [stem, stem + " ", " " + stem, stem + "   ", "  " + stem + "  ", stem + "\t", " " + stem + " "]
+            names = [pads[j] for j in rng.permutation(len(pads))[:p]]
+        else:
+            names = [CSV_NAME_POOL[j] for j in rng.permutation(len(CSV_NAME_POOL))[:p]]
+        if kind == "extreme":
+            X = rng.choice(CSV_EXTREMES, size=(n, p))
+        if i % 3 == 0:
+            X[:, 0] = 1.0
+        cases.append((X, names, kind))
+    # a real design matrix with padded condition ids and user regressor names
+    ft = 0.5 + 2.0 * np.arange(20)
+    with warnings.catch_warnings():
+        warnings.simplefilter("ignore")
+        d = dm.make_dmtx(ft, ep.EventRelatedParadigm(["rest    ", "task    ", "rest"], [4.0, 10.0, 16.0], [1.0, 1.0, 1.0]), "canonical with derivative",
+                         "polynomial", drift_order=2, add_regs=rng.standard_normal((20, 2)), add_reg_names=[" mot", "mot "])
+    cases.append((np.asarray(d.matrix), [str(x) for x in d.names], "make_dmtx-padded-ids"))
+    for i, (X, names, kind) in enumerate(cases):
+        n, p = X.shape
+        path = os.path.join(tmp, "d%d.csv" % i)
+        dm.DesignMatrix(X, list(names), None).write_csv(path)
+        ncsv += 1
+        ck.count(("csv", i, n, p, tuple(names)), bucket="csv:%s" % kind)
+        rep = {"shape": [n, p], "names": list(names), "first_row": X[0].tolist(), "kind": kind,
+               "matrix": X.tolist() if X.size <= 60 else ("np.ones((%d, %d))" % (n, p) if np.all(X == 1.0) else "see generator, case %d" % i)}
+        try:
+            d2 = dm.dmtx_from_csv(path)
+        except Exception as e:  # noqa
+            ck.fail("csv/single-column-sniffer" if p == 1 and kind == "one-column" else "csv/read-raises/%s" % kind,
+                    "DesignMatrix(%d x %d, names %r).write_csv then dmtx_from_csv raised %s: %s" % (n, p, list(names), type(e).__name__, e), rep)
+            continue
+        back = [str(x) for x in d2.names]
+        rep["names_read_back"] = back
+        want = [str(x) for x in names]
+        feature = None
+        if back != want:
+            feature = name_loss(want, back)
+            ck.fail("csv/names/%s" % feature, "column names written %r are read back as %r" % (want, back), rep)
+        if len(set(want)) == len(want) and len(set(back)) != len(back):
+            ck.fail("csv/names/duplicates-after-round-trip/%s" % (feature or "other"),
+                    "distinct names %r collapse to %r after the CSV round trip" % (want, back), rep)
+        M = np.asarray(d2.matrix)
+        if M.shape != X.shape or not np.array_equal(M, X) or not np.array_equal(np.signbit(M), np.signbit(X)):
+            ck.fail("csv/values/%s" % ("extreme" if kind.startswith("extreme") else "plain"),
+                    "values read back differ from the values written (shape %s vs %s, max abs diff %s)" % (
+                        M.shape, X.shape, np.max(np.abs(M - X)) if M.shape == X.shape else "n/a"), rep)
+    return ncsv
+
+
+
 # ------------------------------------------------------------------ section: make_dmtx, drifts, kernels, csv
 def sec_dmtx(ck, hm, dm, ep):
     rng = ck.rng("dmtx")
@@ -426,17 +660,18 @@ def sec_dmtx(ck, hm, dm, ep):
             continue
         if nadd == 0 and named:
             continue
-        ft = TR * np.arange(n)
+        start = [0.0, TR / 2, -2 * TR, 0.3, 4 * TR, -1.7][nd % 6]
+        ft = start + TR * np.arange(n)
         m = 3 * len(ids)
         con = np.array([ids[i % len(ids)] for i in range(m)])
-        on = np.sort(rng.uniform(0, ft[-1] * 0.8, m))
+        on = np.sort(rng.uniform(ft[0], ft[0] + (ft[-1] - ft[0]) * 0.8, m))
         block = rng.random() < .5
         par = (ep.BlockParadigm(con, on, rng.uniform(0.5, 3 * TR, m), rng.uniform(.5, 2, m)) if block
                else ep.EventRelatedParadigm(con, on, rng.uniform(.5, 2, m)))
         add = rng.standard_normal((n, nadd)) if nadd else None
         addn = ["mot_%d" % i for i in range(nadd)] if named else None
         delays = [0, 2, 3]
-        rep0 = {"frametimes": "TR=%g n=%d" % (TR, n), "condition_ids": ids, "hrf_model": model, "drift_model": dmodel, "hfcut": hfcut,
+        rep0 = {"frametimes": "%g + %g*arange(%d)" % (start, TR, n), "condition_ids": ids, "hrf_model": model, "drift_model": dmodel, "hfcut": hfcut,
                 "drift_order": order}
         try:
             with warnings.catch_warnings():
@@ -453,9 +688,10 @@ def sec_dmtx(ck, hm, dm, ep):
             continue
         X, names = np.asarray(d.matrix), list(d.names)
         nd += 1
-        ck.count(("dmtx", TR, n, tuple(ids), model, dmodel, hfcut, order, nadd, named), bucket="dmtx:%s:%s" % (model, dmodel.lower()))
+        ck.count(("dmtx", TR, n, start, tuple(ids), model, dmodel, hfcut, order, nadd, named),
+                 bucket="dmtx:%s:%s:%s" % (model, dmodel.lower(), "start0" if start == 0 else "shifted"))
         nb = len(delays) if model == "fir" else NCOL[model]
-        rep = {"frametimes": "TR=%g n=%d" % (TR, n), "condition_ids": ids, "hrf_model": model, "drift_model": dmodel, "hfcut": hfcut,
+        rep = {"frametimes": "%g + %g*arange(%d)" % (start, TR, n), "condition_ids": ids, "hrf_model": model, "drift_model": dmodel, "hfcut": hfcut,
                "drift_order": order, "fir_delays": delays, "n_add_regs": nadd, "add_reg_names": addn, "names": names, "shape": list(X.shape)}
         if X.shape != (n, len(names)) or len(names) != nb * len(ids) + nadd + drift.shape[1]:
             ck.fail("dmtx/column-count", "make_dmtx: %s columns, %d names, expected %d x %d + %d + %d" % (
@@ -480,6 +716,19 @@ def sec_dmtx(ck, hm, dm, ep):
             ck.fail("dmtx/user-regressor-block", "user regressors are not columns %d..%d of the design matrix" % (p, p + nadd), rep)
         if not np.allclose(X[:, p + nadd:], drift, rtol=0, atol=1e-12):
             ck.fail("dmtx/drift-block", "drift columns are not the last columns of the design matrix", rep)
+        if start != 0 and dmodel.lower() in ("cosine", "blank"):
+            # the drift block of the design depends on the scan index only, not on the time origin
+            with warnings.catch_warnings():
+                warnings.simplefilter("ignore")
+                drift0, _ = dm._make_drift(dmodel.lower(), TR * np.arange(n), order, hfcut)
+            if drift0.shape != drift.shape:
+                x = 2 * n * TR / hfcut
+                ck.fail("drift/cosine-order-boundary-rounding" if abs(x - round(x)) < 1e-9 else "drift/cosine-not-origin-invariant",
+                        "make_dmtx drift block has %d columns for frametimes starting at %g but %d for the same grid starting at 0" % (
+                            drift.shape[1], start, drift0.shape[1]), rep)
+            elif np.max(np.abs(drift0 - drift)) > 1e-12:
+                ck.fail("drift/cosine-not-origin-invariant", "make_dmtx drift block changes by %g when the time origin moves from 0 to %g" % (
+                    np.max(np.abs(drift0 - drift)), start), rep)
         if names[-1] != "constant" or not np.allclose(X[:, -1], X[0, -1]) or X[0, -1] == 0:
             ck.fail("dmtx/constant-last", "last column is not a non-zero constant named 'constant'", rep)
         for j, cid in enumerate(sorted(ids)):
@@ -518,68 +767,8 @@ def sec_dmtx(ck, hm, dm, ep):
         if len(set(names)) != len(names):
             ck.fail("dmtx/duplicate-name-suffix-collision", "make_dmtx(condition ids %s, hrf_model=%r) returns duplicate column names %s" % (ids2, model, names),
                     {"frametimes": ft.tolist(), "condition_ids": ids2, "onsets": [4.0, 10.0], "hrf_model": model, "drift_model": "blank", "names": names})
-    # --- drifts
-    ndr = 0
-    for n in ([8, 17, 33, 64, 100] if not ck.thorough() else list(range(4, 130, 3))):
-        for TR in (1.0, 2.0, 2.5, 0.7):
-            ft = TR * np.arange(n)
-            for period in (n * TR / 3.1, n * TR / 1.3, 2.0 * TR, 128.0, 7.3 * TR):
-                ndr += 1
-                try:
-                    C = dm._cosine_drift(period, ft)
-                except IndexError as e:
-                    ck.count(("cos-raise", n, TR, period), bucket="drift:cosine-raises")
-                    if int(np.floor(2 * n * TR / period)) == 0:
-                        ck.fail("drift/cosine-order-zero-raises", "_cosine_drift(period_cut=%g, TR=%g n=%d) raises IndexError: %s" % (period, TR, n, e),
-                                {"n": n, "TR": TR, "period_cut": period})
-                    else:
-                        ck.fail("drift/cosine-raises", "_cosine_drift raised %s" % e, {"n": n, "TR": TR, "period_cut": period})
-                    continue
-                ck.count(("cos", n, TR, period), nontrivial=C.shape[1] > 1, bucket="drift:cosine")
-                rep = {"n": n, "TR": TR, "period_cut": period, "shape": list(C.shape)}
-                order = C.shape[1]
-                if C.shape[0] != n or abs(order - 2 * n * TR / period) > 1 + 1e-9 or order < 1:
-                    ck.fail("drift/cosine-shape", "cosine drift has shape %s, expected (%d, floor(%g))" % (C.shape, n, 2 * n * TR / period), rep)
-                    continue
-                K = C[:, :-1]
-                if not np.all(C[:, -1] == 1.0):
-                    ck.fail("drift/cosine-constant-last", "last cosine-drift column is not the constant 1", rep)
-                if K.shape[1] and order <= n:
-                    G = K.T @ K
-                    if np.max(np.abs(G - np.eye(K.shape[1]))) > 1e-10:
-                        ck.fail("drift/cosine-orthonormal", "cosine drift columns are not orthonormal (max |G - I| = %g)" % np.max(np.abs(G - np.eye(K.shape[1]))), rep)
-                    if np.max(np.abs(K.sum(0))) > 1e-10:
-                        ck.fail("drift/cosine-orthogonal-to-constant", "a cosine drift column is not orthogonal to the constant", rep)
-                    # DCT-II closed form incl. the column ORDER (frequency k in column k-1)
-                    kk = np.arange(1, order)
-                    ref = np.sqrt(2.0 / n) * np.cos(np.pi / n * (np.arange(n)[:, None] + .5) * kk[None, :])
-                    if np.max(np.abs(ref - K)) > 1e-12:
-                        ck.fail("drift/cosine-column-order", "cosine drift column k-1 is not the DCT-II basis function of frequency k", rep)
-            for order in (0, 1, 2, 3, 5):
-                if order >= n:
-                    continue
-                P = dm._poly_drift(order, ft)
-                ndr += 1
-                ck.count(("poly", n, TR, order), nontrivial=order > 0, bucket="drift:polynomial")
-                rep = {"n": n, "TR": TR, "order": order}
-                if P.shape != (n, order + 1):
-                    ck.fail("drift/poly-shape", "polynomial drift has shape %s" % (P.shape,), rep)
-                    continue
-                G = P.T @ P
-                nrm = np.sqrt(np.diag(G))
-                Gn = G / np.outer(nrm, nrm)
-                if np.max(np.abs(Gn - np.eye(order + 1))) > 1e-7:
-                    ck.fail("drift/poly-orthogonal", "polynomial drift columns are not mutually orthogonal (max normalised |<ci,cj>| = %g)"
-                            % np.max(np.abs(Gn - np.eye(order + 1))), rep)
-                if not np.allclose(P[:, -1], 1.0):
-                    ck.fail("drift/poly-constant-last", "last polynomial-drift column is not the constant", rep)
-                # column k-1 has exact degree k: its k-th finite difference is a non-zero constant
-                for k in range(1, order + 1):
-                    dk = np.diff(P[:, k - 1], k)
-                    dk1 = np.diff(P[:, k - 1], k + 1) if k + 1 < n else np.zeros(1)
-                    if not (np.max(np.abs(dk)) > 1e-9 and np.max(np.abs(dk1)) < 1e-7 * max(1.0, np.max(np.abs(dk)) * 1e3)):
-                        ck.fail("drift/poly-column-order", "polynomial drift column %d is not a polynomial of degree %d" % (k - 1, k), rep)
-                        break
+    # --- drifts: every oracle on grids with zero and non-zero start (positive, negative, fractions of TR, non-dyadic)
+    ndr = drift_oracles(ck, dm)
     # --- canonical kernels sum to one; time-to-peak ties the kernel grid to tr/oversampling
     nk = 0
     for tr in (0.5, 1.0, 2.0, 2.5, 3.0):
@@ -611,37 +800,7 @@ def sec_dmtx(ck, hm, dm, ep):
                     if abs(np.sum(h)) > 1e-9:
                         ck.fail("kernel/derivative-sum", "derivative kernel of %s sums to %g" % (model, np.sum(h)), {"model": model, "tr": tr})
     # --- CSV round trip
-    ncsv = 0
-    tmp = tempfile.mkdtemp(prefix="c07-csv-", dir=str(ck.scratch))
-    for i in range(ck.n(12, 60)):
-        n = int(rng.integers(2, 40)); p = int(rng.integers(1, 7))
-        X = rng.standard_normal((n, p)) * 10.0 ** rng.integers(-8, 8, (1, p))
-        if i % 3 == 0:
-            X[:, 0] = 1.0
-        names = ["n%d_%s" % (j, "x" * int(rng.integers(0, 4))) for j in range(p)]
-        if i % 4 == 1:
-            names[0] = "cond a"        # a space inside a name
-        if i == 0:                     # smallest replay of the single-column finding first
-            X, names, n, p = np.ones((26, 1)), ["n0_"], 26, 1
-        elif i == 1:                   # any one-column file (no delimiter at all in it)
-            X, names, n, p = rng.standard_normal((6, 1)), ["a"], 6, 1
-        path = os.path.join(tmp, "d%d.csv" % i)
-        d = dm.DesignMatrix(X, names, None)
-        d.write_csv(path)
-        ncsv += 1
-        ck.count(("csv", i, n, p), bucket="csv")
-        rep = {"shape": [n, p], "names": names, "first_row": X[0].tolist(),
-               "matrix": X.tolist() if X.size <= 60 else ("np.ones((%d, %d))" % (n, p) if np.all(X == 1.0) else "random")}
-        try:
-            d2 = dm.dmtx_from_csv(path)
-        except Exception as e:  # noqa
-            ck.fail("csv/single-column-sniffer" if p == 1 else "csv/read-raises",
-                    "DesignMatrix(%d x %d, names %s).write_csv then dmtx_from_csv raised %s: %s" % (n, p, names, type(e).__name__, e), rep)
-            continue
-        if list(d2.names) != names:
-            ck.fail("csv/names", "names read back %s != written %s" % (d2.names, names), rep)
-        elif d2.matrix.shape != X.shape or not np.array_equal(d2.matrix, X):
-            ck.fail("csv/values", "values read back differ from the values written (shape %s vs %s)" % (d2.matrix.shape, X.shape), rep)
+    ncsv = csv_oracles(ck, dm, ep, rng)
     ck.section("dmtx", designs=nd, drift_cases=ndr, kernel_cases=nk, csv_cases=ncsv, name_terms=len(terms))
 
 
